@@ -2,7 +2,13 @@
 
 package gtab
 
-import "golang.org/x/text/language"
+import (
+	"bytes"
+
+	"golang.org/x/text/language"
+
+	"seehuhn.de/go/sfnt/parser"
+)
 
 // VerifTagTables exposes the OpenType script and language tag tables.
 func VerifTagTables() (scripts, langs map[string]string) {
@@ -36,4 +42,12 @@ func VerifSubtableSizes(st Subtable) (declared, emitted int) {
 // VerifSubtableLen returns the declared size of a subtable (without encoding it).
 func VerifSubtableLen(st Subtable) (declared int, ok bool) {
 	return st.encodeLen(), true
+}
+
+// VerifEncodeFeatureList exposes the feature list encoder.
+func VerifEncodeFeatureList(info FeatureListInfo) []byte { return info.encode() }
+
+// VerifReadFeatureList exposes the feature list reader.
+func VerifReadFeatureList(data []byte) (FeatureListInfo, error) {
+	return readFeatureList(parser.New(bytes.NewReader(data)), 0)
 }
